@@ -284,3 +284,14 @@ def run(tier, seed):
                        "dynamic-liquid stacks are solved at 5e-4..2e-3 rad/s (documented instability at low frequency)",
                        "cf_top_to_bottom_interface_bc, cf_apply_surface_bc, cf_collapse_layer_solution are cdef-only: bound through the whole-solver residuals"]
     return ck.finish()
+
+
+def replay(path):
+    """re-run the recorded stack job on the real solver and print the surface / interface values"""
+    d = json.load(open(path))
+    print(d["desc"][:3000])
+    job = d.get("replay")
+    if isinstance(job, dict) and "kinds" in job:
+        out = run_jobs([job], nproc=1)[0]
+        print(json.dumps({"status": out.get("status"), "msg": out.get("msg"), "types": {t: {"surf": v["surf"], "iface": v["iface"]} for t, v in (out.get("types") or {}).items()}}, indent=1)[:5000])
+    return 1
